@@ -328,6 +328,18 @@ Definition sstep (s : sstate) (o : sop) : option sstate :=
   | SAdvance d => if d <? 0 then None else Some {| prm := prm s; pst := pst s; recs := recs s; dq := dq s; snow := snow s + d |}
   end.
 
+(* the parameters in force after an operation: only SetTopicScoreParams changes them, and what it changes them to depends
+   on the operation alone *)
+Definition prm_after (P : sparams) (o : sop) : sparams :=
+  match o with
+  | SSetTopic t tp =>
+      {| spTopics := aset t tp (spTopics P); spTopicScoreCap := spTopicScoreCap P; spAppWeight := spAppWeight P;
+         spIPWeight := spIPWeight P; spIPThreshold := spIPThreshold P; spBPWeight := spBPWeight P;
+         spBPThreshold := spBPThreshold P; spBPDecay := spBPDecay P; spDecayToZero := spDecayToZero P;
+         spRetain := spRetain P; spSeenTTL := spSeenTTL P |}
+  | _ => P
+  end.
+
 Fixpoint srun (s : sstate) (l : list sop) : option sstate :=
   match l with
   | [] => Some s
